@@ -57,7 +57,15 @@ def run(ck):
         params = gen_extra(ck.rng)
         evlrs = fio.rand_vlrs(ck.rng, True, 1) if cur >= 4 else None
         in_range = ck.rng.random() < 0.55
-        las = fio.make_las(ck.rng, cur, src, n, params, vlrs=fio.rand_vlrs(ck.rng, False, 1), evlrs=evlrs)
+        src_vlrs = fio.rand_vlrs(ck.rng, False, 1)
+        if ck.rng.random() < 0.5:
+            # records that share the extra-bytes record's user id (LASF_Spec) but are something else
+            spec = [("LASF_Spec", 0, "classes", bytes([2]) + b"ground".ljust(15, b"\0") + bytes([5]) + b"high_vegetation".ljust(15, b"\0")),
+                    ("LASF_Spec", 3, "text area", b"converted by verif"),
+                    ("LASF_Spec", 100 + ck.rng.randrange(0, 255), "wave", bytes(ck.rng.getrandbits(8) for _ in range(26)))]
+            src_vlrs = src_vlrs + ck.rng.sample(spec, ck.rng.randrange(1, 4))
+            ck.count("source_has_other_LASF_Spec_vlrs")
+        las = fio.make_las(ck.rng, cur, src, n, params, vlrs=src_vlrs, evlrs=evlrs)
         if n and src >= 6 and (in_range or ck.rng.random() < 0.5):
             # each narrower-in-the-target field is brought into range independently, so that every single field gets to
             # be the only one that does not fit
